@@ -826,6 +826,48 @@ def evaluate(ctx, exe, mexe, cases, stats, structural=True):
     return nrows
 
 
+def evaluate_fast(ctx, exe, mexe, cases, stats):
+    """spec only, batched: one harness process and one model-driver process for all the cases; the harness output of a
+    case is handed to the driver as it is (command F of the driver).  Any case that is not perfectly clean (abort,
+    garbage, a row failing is_knn_b) goes through the ordinary path, which attributes, shrinks and records."""
+    cmdlists = [["F %s %d" % (m, k) for k in c["ks"] for m in ("V", "C")] for c in cases]
+    impl = run_impl(ctx, exe, cases, cmdlists)
+    text, sent = [], []
+    redo = []
+    for c, cm, r in zip(cases, cmdlists, impl):
+        if r.get("skipped"):
+            stats["skipped_cases"] = stats.get("skipped_cases", 0) + 1
+            continue
+        if r["crashed"] or not r["ended"] or any(l.startswith("X ") for l in r["lines"]):
+            redo.append(c)
+            continue
+        text.append(table_text(c["M"]))
+        text.append("\n".join(r["lines"]))
+        text.append("\nEND\n")
+        sent.append((c, len(cm)))
+    nrows = 0
+    if sent:
+        out = run_model(ctx, mexe, "".join(text))
+        pos = 0
+        for c, nf in sent:
+            ok, seen = True, 0
+            while pos < len(out) and out[pos] != "END":
+                w = out[pos].split()
+                pos += 1
+                if len(w) == 5 and w[0] == "FQ" and w[3] == "0" and w[4] == str(c["N"]):
+                    seen += 1
+                    nrows += c["N"]
+                else:
+                    ok = False
+            pos += 1
+            if not ok or seen != nf:
+                redo.append(c)
+    stats["scatter_rows"] = stats.get("scatter_rows", 0) + nrows
+    if redo:
+        nrows += evaluate(ctx, exe, mexe, redo[:40], stats, structural=False)
+    return nrows
+
+
 # ----------------------------------------------------------------------------- tie statistics (evidence only)
 def tie_stats(c, stats):
     T, _ = model_table(c)
@@ -838,6 +880,56 @@ def tie_stats(c, stats):
             if sum(1 for x in row if x == 0) >= k + 1:
                 stats["rows_with_k+1_coincident"] = stats.get("rows_with_k+1_coincident", 0) + 1
             stats["rows_total"] = stats.get("rows_total", 0) + 1
+
+
+def float_observation(ctx, exe, rng, stats, runs):
+    """OBSERVATION stream (never a verdict unless the callback table is an exact metric): 1-D coordinates spread
+    log-uniformly over 23 decades, callback = fl(|x - y|) served as hex floats.  Such a table violates the triangle
+    inequality by an ulp on many (collinear, hence tight) triples, which is outside the property's hypothesis; the two
+    tree methods then occasionally return a short or farther row (mechanism verified with the exact model on the real
+    tree: no rounding inside tapkee is involved).  Counted and labelled in the evidence."""
+    from fractions import Fraction
+    for _ in range(runs):
+        n = rng.randint(8, 24)
+        xs = [rng.choice([-1, 1]) * math.exp(rng.uniform(math.log(1e-12), math.log(1e11))) for _ in range(n)]
+        F = [[abs(a - b) for b in xs] for a in xs]
+        k = rng.randint(1, min(6, n - 1))
+        vals = sorted({v for row in F for v in row})
+        rank = {v: i for i, v in enumerate(vals)}
+        c = {"gen": "float-line-23-decades", "kind": "D", "N": n, "order_only": True, "structural": False,
+             "M": [[rank[v] for v in row] for row in F], "Mhex": [[v.hex() for v in row] for row in F], "ks": [k]}
+        r = run_impl(ctx, exe, [c], [["F %s %d" % (m, k) for m in METHODS]], timeout=60)[0]
+        stats["float_runs"] = stats.get("float_runs", 0) + 1
+        den = max(Fraction(v).denominator for v in vals)
+        I = [[int(Fraction(v) * den) for v in row] for row in F]
+        metric = all(I[i][l] <= I[i][j] + I[j][l] for i in range(n) for j in range(n) for l in range(n))
+        if not metric:
+            stats["float_tables_not_metric"] = stats.get("float_tables_not_metric", 0) + 1
+        if r["crashed"] or not r["ended"]:
+            if metric:
+                ctx.violation(dict(c, method="C", k=k), "abort on an exact-metric floating-point table: "
+                              + str(r["sanitizer"])[:300])
+            else:
+                stats["float_aborts"] = stats.get("float_aborts", 0) + 1
+            continue
+        p = parse_case_output(r["lines"])
+        for m in METHODS:
+            rows = dict(p["F"].get((m, k)) or [])
+            bad = 0
+            for q in range(n):
+                row = rows.get(q)
+                want = sorted(F[q][j] for j in range(n) if j != q)[:k]
+                if row is None or q in row or len(set(row)) != len(row) or \
+                        any(not (0 <= j < n) for j in row) or sorted(F[q][j] for j in row) != want:
+                    bad += 1
+            if bad:
+                stats["float_bad_rows_" + m] = stats.get("float_bad_rows_" + m, 0) + bad
+                if metric or m == "B":
+                    # brute force needs no metric; the tree methods are only judged on exact-metric tables
+                    ctx.violation({"gen": c["gen"], "kind": "D", "N": n, "method": m, "k": k, "M": c["M"],
+                                   "Mhex": c["Mhex"], "order_only": True},
+                                  "%s returns a row that is not the k nearest on a floating-point table%s"
+                                  % (MNAME[m], " that is an exact metric" if metric else ""))
 
 
 def corpus_case(cj):
@@ -888,7 +980,7 @@ def run(ctx):
         if c["ks"]:
             cases.append(c)
     quick = ctx.quick
-    ngen = 800 if quick else 6000
+    ngen = 700 if quick else 6000
     nmax = 60 if quick else 120
     # exhaustive tiny part: every multiset of <= 5 points on {0,1,2} (line with multiplicities), all k
     tiny = []
@@ -910,7 +1002,7 @@ def run(ctx):
         cases.append(gen_ultrawide(rng, 10))
     # scatter stream: small random point sets on coarse 1-D / 2-D integer lattices, every k, find_neighbors +
     # is_knn_b only (the geometry where a too small pruning radius of the cover tree shows, about 1 case in 8000)
-    for _ in range(1200 if quick else 30000):
+    for _ in range(8000 if quick else 60000):
         n = rng.randint(4, 9)
         r = rng.choice([8, 12, 20, 40])
         if rng.random() < 0.5:
@@ -936,13 +1028,15 @@ def run(ctx):
     cases = [c for c in cases if c["ks"] and c["N"] >= 2]
     for c in cases:
         hist[c["gen"]] = hist.get(c["gen"], 0) + 1
-        tie_stats(c, stats)
+        if c["gen"] != "scatter":
+            tie_stats(c, stats)
         if c["N"] <= 60 and not c["gen"].startswith("corpus"):
             T, exact = model_table(c)
             if exact and not c.get("order_only") and not is_metric(T):
                 raise vlib.BuildError("generator bug: non-metric table from " + c["gen"])
     n = 0
-    small = [c for c in cases if c["N"] <= 150]
+    scatter = [c for c in cases if c["gen"] == "scatter"]
+    small = [c for c in cases if c["N"] <= 150 and c["gen"] != "scatter"]
     large = [c for c in cases if c["N"] > 150]
     for i in range(0, len(small), 150):
         n += evaluate(ctx, exe, mexe, small[i:i + 150], stats)
@@ -953,6 +1047,11 @@ def run(ctx):
         if stats.get("aborted_cases", 0) >= 3 and ctx.has_violation():
             break
         n += evaluate(ctx, exe, mexe, [c], stats)
+    float_observation(ctx, exe, rng, stats, 30 if quick else 400)
+    for i in range(0, len(scatter), 2000):
+        if ctx.has_violation():
+            break
+        n += evaluate_fast(ctx, exe, mexe, scatter[i:i + 2000], stats)
     if ctx.is_unshown():
         m, extra = search_phase(ctx, exe, mexe, rng, 1500 if quick else 6000, stats, hist)
         n += m
@@ -975,7 +1074,11 @@ def run(ctx):
              "for N<=12 and 4-6 aimed k above; "
              "non-trivial = N>=3; distinct by hash of (matrix, ks).  Structural probes per (case,k): real VP-tree dump "
              "+ model search on it, cover-tree candidate lists + completeness, cover-tree dump + model query, observed "
-             "nth_element calls (counts in histogram.stats).",
+             "nth_element calls (counts in histogram.stats).  float_* in histogram.stats is an OBSERVATION stream outside "
+             "the property's hypothesis: 1-D coordinates over 23 decades, callback fl(|x-y|) - a table that violates the "
+             "triangle inequality by an ulp on tight (collinear) triples; float_tables_not_metric counts such tables, "
+             "float_bad_rows_V/C the short or farther rows the tree methods then return (no verdict; a verdict only if the "
+             "table is an exact metric, or for brute force).",
         samples=[{"gen": c["gen"], "N": c["N"], "ks": c["ks"][:6],
                   "first_row": (c.get("M") or c.get("X"))[0][:12]} for c in cases[:2] + cases[len(tiny) + 2:len(tiny) + 7]],
         histogram={"generators": hist, "sizes": sizes, "stats": stats},
